@@ -215,7 +215,6 @@ func vC35Path(r *vRand, suffixes []string, class *string) string {
 
 func vC35Port(k int) int { return 30000 + (os.Getpid()%250)*100 + k }
 
-
 // offsets i such that uuid.Parse(path[i:]) succeeds
 func vC35UUIDAt(p string) []int64 {
 	var r []int64
